@@ -305,6 +305,8 @@ DETS = [
     ({"s": {"f1|startswith": "fo?o", "f2": "*a?b", "f3|contains": "x?y", "f4|cased|endswith": "p?q"}, "t": {"f5": "?ab*", "f6": "*ab?", "f7|cased": "*a?*"}}, ["s", "not s", "s and t", "not t", "s or not t"]),
     # several conditions in one rule that use the same detections with different negation
     ({"s": {"f1": "a"}, "t": {"f2": "b", "f3|contains": "c"}}, [("s and not t", "s and t"), ("not s", "s", "t and not s"), ("s or not t", "not (s or t)", "t")]),
+    # a list that mixes plain values (keywords) and maps: alternatives - keyword OR (all items of a map)
+    ({"s": ["k1", {"f1": "a", "f2": "b"}], "t": {"f3": "c"}}, ["s", "s and t", "s or t"]),
 ]
 
 
